@@ -24,7 +24,7 @@ PURE_CALLS = {'len', 'as_ref', 'to_string', 'clone', 'as_str', 'is_some', 'is_no
               'unwrap_or', 'min', 'max', 'ticks', 'value', 'name', 'format', 'into', 'iter', 'count', 'get',
               'node_id', 'as_u32', 'bits', 'is_null', 'to_vec', 'capacity', 'unwrap', 'to_uri', 'position',
               'as_bytes', 'to_usize', 'byte_len', 'size', 'checked_duration_since', 'signed_duration_since',
-              'num_milliseconds', 'to_rfc3339', 'as_chrono', 'block_size'}
+              'num_milliseconds', 'to_rfc3339', 'as_chrono', 'block_size', 'as_base64', 'last_modified'}
 
 
 class Manifest:
